@@ -240,3 +240,34 @@ Proof.
 Qed.
 
 End Sym.
+
+Section RayleighTensor.
+Variable K : ordring.
+
+Lemma lin_comp_geometric dim coef : geometric K (lin dim coef (@comp K)).
+Proof.
+  intros e e' H. unfold lin. apply sumf_ext. intros l _. unfold comp. rewrite H. reflexivity.
+Qed.
+
+(* Rayleigh monotonicity in every direction n:  n.L.n <= n.L'.n  when N' dominates N *)
+Theorem rayleigh_tensor (N N' : net K) dim coef (g g' : nat -> nat -> K) :
+  nonneg N -> dominated N N' ->
+  (forall l, l < dim -> weakKCL N (comp l) (g l)) ->
+  (forall l, l < dim -> weakKCL N' (comp l) (g' l)) ->
+  rle K (sumf (fun a => sumf (fun b => rmul K (rmul K (nth a coef (r0 K)) (nth b coef (r0 K)))
+                                        (Bform N (comp a) (comp b) (g a) (g b))) (seq 0 dim)) (seq 0 dim))
+        (sumf (fun a => sumf (fun b => rmul K (rmul K (nth a coef (r0 K)) (nth b coef (r0 K)))
+                                        (Bform N' (comp a) (comp b) (g' a) (g' b))) (seq 0 dim)) (seq 0 dim)).
+Proof.
+  intros Hn Hdom Hg Hg'.
+  rewrite <- (Bform_lin K N dim coef coef (@comp K) g).
+  rewrite <- (Bform_lin K N' dim coef coef (@comp K) g').
+  apply rayleigh.
+  - apply lin_comp_geometric.
+  - exact Hn.
+  - exact Hdom.
+  - apply weak_lin. exact Hg.
+  - apply weak_lin. exact Hg'.
+Qed.
+
+End RayleighTensor.
